@@ -47,7 +47,7 @@ func runC14(c *fw.Ctx, idx int) fw.Result {
 	if r.Chance(0.3) {
 		form = "sam"
 	}
-	opts := gen.AnnoOpts{MaxFeats: 5, AllowUnnamed: false, AllowSlip: true, SplitCodons: true, Isoforms: true, Rotate: true, NoStop: true, DupNames: true}
+	opts := gen.AnnoOpts{MaxFeats: 5, AllowUnnamed: false, AllowSlip: true, SplitCodons: true, Isoforms: true, Rotate: true, NoStop: true, DupNames: true, CRLF: true}
 	vp := gen.DefaultVarProfile()
 	if r.Chance(0.4) {
 		vp.PDel, vp.MaxInsSites = 0.05, 5
@@ -55,6 +55,11 @@ func runC14(c *fw.Ctx, idx int) fw.Result {
 	ac := makeAnnoCase(r, c.Thorough(), "gb", form, vp, 6, opts)
 	gbTxt := ac.annoTxt
 	gffTxt := gen.RenderGFF(r, ac.an, true)
+	if r.Chance(0.12) {
+		// line ends of either file are not part of the annotation
+		gffTxt = strings.ReplaceAll(gffTxt, "\n", "\r\n")
+		res.Count("cases_with_crlf_gff", 1)
+	}
 	appendSNP := r.Chance(0.5)
 	threads := pickThreads(r)
 	outGB, errGB := ac.runVariants(-1, -1, false, 0, appendSNP, threads)
